@@ -5,6 +5,33 @@ from .rules_extract import load_rules
 from . import rules_check
 
 
+def family(thorough):
+    """Queries whose answer depends on facts a schema-level analysis might over-generalise: NULL tests on NOT NULL / primary
+    key columns of the NULL-supplying side of an outer join, constants compared with constants of another width, predicates
+    that hold on base tables but not above a join or an aggregation."""
+    from . import corpus
+    ddl = corpus.schema_ddl()
+    qs = []
+    # t(a pk, b, c)  u(x, y)  w(p pk, q, r)
+    for jt in ('LEFT', 'RIGHT', 'FULL', 'INNER'):
+        for l, r, on in (('u', 'w', 'u.x = w.p'), ('t', 'w', 't.b = w.p'), ('w', 't', 'w.q = t.a'), ('u', 't', 'u.y = t.a')):
+            pk = {'w': 'w.p', 't': 't.a'}
+            for side in (l, r):
+                if side not in pk:
+                    continue
+                k = pk[side]
+                other = (r if side == l else l)
+                oc = {'u': 'u.x', 't': 't.b', 'w': 'w.q'}[other]
+                qs += ['SELECT %s, %s FROM %s %s JOIN %s ON %s WHERE %s IS NULL' % (oc, k, l, jt, r, on, k),
+                       'SELECT %s, %s FROM %s %s JOIN %s ON %s WHERE %s IS NOT NULL' % (oc, k, l, jt, r, on, k),
+                       'SELECT %s, (%s IS NULL) FROM %s %s JOIN %s ON %s' % (oc, k, l, jt, r, on),
+                       'SELECT count(*) FROM %s %s JOIN %s ON %s WHERE NOT (%s IS NULL)' % (l, jt, r, on, k)]
+    # NULL tests above aggregation / on the base table (controls)
+    qs += ['SELECT t.a FROM t WHERE t.a IS NULL', 'SELECT t.a FROM t WHERE t.a IS NOT NULL', 'SELECT (max(t.a) IS NULL) FROM t', 'SELECT w.p, (min(t.a) IS NULL) FROM w LEFT JOIN t ON w.q = t.a GROUP BY w.p',
+           'SELECT u.x FROM u WHERE u.x IN (SELECT t.a FROM t) OR u.x IS NULL', 'SELECT u.x FROM u WHERE NOT EXISTS (SELECT 1 FROM t WHERE t.a = u.x)']
+    return [('family:outer-join-null-tests', ddl, qs)]
+
+
 def main(tier, only=None):
     rep = Report('C01', 'translation_validation', './bin/check C01 --tier ' + tier)
     thorough = tier == 'thorough'
@@ -21,7 +48,7 @@ def main(tier, only=None):
         rules_check.run(rep, rules, K, thorough, select=sel)
     if os.environ.get('C01_LAYER', 'both') in ('both', 'queries'):
         from . import query_layer
-        query_layer.run(rep, 'C01', K, thorough, 1500 if thorough else 150, only=only)
+        query_layer.run(rep, 'C01', K, thorough, 1500 if thorough else 150, only=only, extra_groups=family(thorough))
     return rep.finish()
 
 
